@@ -147,6 +147,15 @@ def run(ck):
         for k in range(20 if quick else 200):
             a, b, c = rng.below(len(paths)), rng.below(len(paths)), rng.below(len(paths))
             rl.append('readfiles %s %s %s' % (paths[a], paths[b], paths[c]))
+        # several inputs whose earlier files fill the sequence array exactly (512-slot growth steps of alloc_msa / resize_msa)
+        for (n1, n2, n3) in ([(512, 2, 0), (512, 512, 3)] if quick else [(512, 2, 0), (512, 512, 3), (1024, 1, 1), (511, 1, 512), (512, 0, 2)]):
+            ps = []
+            for j, nn in enumerate((n1, n2, n3)):
+                pth = os.path.join(tmp, 'slots_%d_%d_%d_%d' % (n1, n2, n3, j))
+                open(pth, 'w').write(''.join('>q%d_%d\n%s\n' % (j, i, gen.rand_seq(rng, 'ACGT', rng.range(3, 9))) for i in range(nn)))
+                ps.append(pth)
+            rl.append('readfiles ' + ' '.join(ps))
+            ck.count('input:several files at the 512-slot boundary')
         ri = ck.run_lines_sharded(kvh, rl, shards=12, timeout=900, env=env)
         rm = ck.run_lines_sharded(model, rl, shards=12, timeout=900)
         st = ck.corr.setdefault('Formats readers vs msa_io.c (ASan+UBSan build, malformed stream)', {'cases': 0, 'disagreements': 0})
